@@ -304,7 +304,8 @@ theorem stop_table {s s' : State} {id code : Nat} {b : Bool} (h : s.stop id code
       · simp [hst]
       · have hst' : rs.stopped = false := by simpa using hst
         simp only [hst', Bool.false_eq_true, ↓reduceIte]
-        cases subU rs.end_ rs.assembler.bytesRead <;> simp
+        cases (if Gen.stopCreditsOnlyReceiving && !rs.isReceiving then some 0
+          else subU rs.end_ rs.assembler.bytesRead) <;> simp
     rcases hstop with ⟨hs, hst⟩ | ⟨v, hs, hst⟩ | hs
     · simp only [hs, Option.some.injEq, Prod.mk.injEq] at h
       unfold RecvHalf.ofRecv; rw [hst]; exact h.2.symm
